@@ -725,6 +725,11 @@ def _shadow_all(ctx):
         for g in idxs:
             if g in seen or g2k[g] not in ctx.model.pos:
                 ctx.fail("C16", "views", f"residue {g2k[g]} stale or listed twice in the search trees")
+                # the same fact in C17's words: a residue with more than one registered position, or a discarded one
+                # that is still in the system when building ends
+                ctx.fail("C17", "final.once", f"residue {g2k[g]} is "
+                         + ("registered more than once" if g in seen else "still registered although it was removed")
+                         + " in the neighbour engine when building ends")
                 return
             seen.add(g)
     if len(seen) != len(ctx.model.pos):
